@@ -49,7 +49,9 @@ INT_INFO = {"i8": (8, True), "u8": (8, False), "i16": (16, True), "u16": (16, Fa
             "u32": (32, False), "i64": (64, True), "u64": (64, False)}
 FLT_INFO = {"f32": (24, 8, 8), "f64": (53, 11, 16), "f80": (64, 15, 20)}   # precision, exponent bits, hex digits
 OPN = ["eq", "ne", "lt", "le", "gt", "ge"]
-INIT_SITES = ["copyInit", "directInit", "braceInit", "assign", "argument", "returnValue", "staticCast"]
+INIT_SITES = ["copyInit", "directInit", "braceInit", "assign", "argument", "returnValue", "staticCast",
+              "copyInit read by in(maker)", "copyInit read by in<Rep>(u)", "default member initialiser", "array element",
+              "aggregate member"]
 
 
 def ilo(r):
@@ -277,10 +279,10 @@ def float_pairs(rng, rep, n):
 # harness plumbing
 # ----------------------------------------------------------------------------------------------
 
-def build_harness(wd, files, compiler, std, tag, opt):
+def build_harness(wd, files, compiler, std, tag, opt, san=True):
     def comp(src):
         obj = src[:-3] + f".{tag}.o"
-        rc, out = cxx(src, obj, compiler=compiler, std=std, opt=opt, extra=["-c"])
+        rc, out = cxx(src, obj, compiler=compiler, std=std, opt=opt, extra=["-c"], san=san)
         return src, obj, rc, out
     objs = []
     for src, obj, rc, out in pmap(comp, files):
@@ -288,14 +290,20 @@ def build_harness(wd, files, compiler, std, tag, opt):
             return None, {"src": src, "output": out[-4000:]}
         objs.append(obj)
     exe = os.path.join(wd, f"harness_{tag}")
-    rc, out, err = run(link_cmd(compiler, objs, exe))
+    rc, out, err = run(link_cmd(compiler, objs, exe) if san else [compiler] + objs + ["-o", exe])
     if rc != 0:
         return None, {"src": "link", "output": (out + err)[-4000:]}
     return exe, None
 
 
+CPU_LIMIT = {"quick": 900, "thorough": 14400}      # seconds of CPU per harness process (RLIMIT_CPU, not wall time)
+_cpu = [900]
+
+
 def run_harness(exe, lines, shards=16):
-    """Answers in request order (every request yields exactly one line; D and A are handled apart)."""
+    """Answers in request order (every request yields exactly one line; D and A are handled apart).  A request whose
+    evaluation traps is answered by a `T signal=...` line naming it; if a process dies all the same, the unanswered
+    requests are answered `T signal=died ...`."""
     if not lines:
         return [], []
     order = sorted(range(len(lines)), key=lambda i: (0 if lines[i][0] == "S" else 1))
@@ -306,11 +314,11 @@ def run_harness(exe, lines, shards=16):
     def work(idx):
         if not idx:
             return [], ""
-        rc, out, err = run([exe], inp="\n".join(lines[i] for i in idx) + "\n", env=UBSAN_ENV, timeout=7200)
+        rc, out, err = run([exe, str(_cpu[0])], inp="\n".join(lines[i] for i in idx) + "\n", env=HENV, timeout=6 * 3600)
         res = [l for l in out.split("\n") if l]
-        if len(res) != len(idx):
-            raise RuntimeError(f"harness: rc={rc}, {len(res)} answers for {len(idx)} requests; stderr tail:\n{err[-3000:]}")
-        return res, err
+        if len(res) < len(idx):
+            res += [f"T signal=died rc={rc} request={lines[i]} stderr={err[-300:]!r}".replace("\n", " ") for i in idx[len(res):]]
+        return res[:len(idx)], err
     outs = pmap(work, buckets, workers=shards)
     answers = [None] * len(lines)
     errs = []
@@ -321,8 +329,11 @@ def run_harness(exe, lines, shards=16):
     return answers, errs
 
 
+HENV = dict(UBSAN_ENV, ASAN_OPTIONS="detect_leaks=0:abort_on_error=1:handle_abort=0:handle_segv=0:handle_sigfpe=0:handle_sigill=0")
+
+
 def run_block(exe, cmd):
-    rc, out, err = run([exe], inp=cmd + "\n", env=UBSAN_ENV, timeout=600)
+    rc, out, err = run([exe, "600"], inp=cmd + "\n", env=HENV, timeout=6 * 3600)
     res = [l for l in out.split("\n") if l]
     if rc != 0 or not res or res[-1] != "END":
         raise RuntimeError(f"harness {cmd}: rc={rc}\n{err[-3000:]}")
@@ -393,6 +404,18 @@ PROBE_SITES = {
     "zero_sub_pt": ("bin:sub:zp", "auto probe(PT p) -> decltype(C19_ARG - p) { return C19_ARG - p; }"),
     "pt_sub_zero": ("bin:sub:pz", "void probe(PT p) { (void)(p - C19_ARG); }"),
 }
+PROBE_SITES.update({
+    "listAssign": ("site:assign", "void probe(PT& p) { p = {C19_ARG}; }"),
+    "aggregate": ("site:copyInit", "struct S { PT p; }; void probe() { S s{C19_ARG}; (void)s; }"),
+    "arrayInit": ("site:copyInit", "void probe() { PT a[1] = {C19_ARG}; (void)a; }"),
+    "conditional": ("site:copyInit", "PT probe(PT p, bool c) { return c ? p : C19_ARG; }"),
+    "pushBack": ("site:argument", "#include <vector>\nvoid probe(std::vector<PT>& v) { v.push_back(C19_ARG); }"),
+    "defaultArg": ("site:copyInit", "void sink(PT p = C19_ARG); void probe() { sink(); }"),
+    # makers: QuantityPointMaker::operator()(T) builds QuantityPoint<U, Zero>; rejected by IsValidRep (rep.hh), which the
+    # model does not cover: judged by the compiler's verdict only
+    "maker_pt": ("oracle:rep", "void probe() { (void)au::make_quantity_point<U>(C19_ARG); }", "R{}"),
+    "maker_obj_pt": ("oracle:rep", "void probe() { (void)au::QuantityPointMaker<U>{}(C19_ARG); }", "R{}"),
+})
 for _o, _sym in zip(OPN, H.OPS):
     PROBE_SITES[f"pt_{_o}_zero"] = (f"bin:{_o}:pz", f"bool probe(PT p) {{ return p {_sym} C19_ARG; }}")
     PROBE_SITES[f"zero_{_o}_pt"] = (f"bin:{_o}:zp", f"bool probe(PT p) {{ return C19_ARG {_sym} p; }}")
@@ -404,14 +427,16 @@ ALLOW = {
     "ambiguous": [r"ambiguous overload for .operator-.", r"use of overloaded operator '-' is ambiguous"],
 }
 DELETED_DECL = ["QuantityPoint(au::Zero)", "QuantityPoint(Zero) = delete"]
+ORACLE_ONLY = {"rep": r"Rep must meet our requirements for a rep"}
 
 
 def probe_src(unit, rep, site, control):
     inc = "\n".join(f'#include "{h}"' for h in H.unit_headers())
     body = PROBE_SITES[site][1]
+    ctl = PROBE_SITES[site][2] if len(PROBE_SITES[site]) > 2 else "au::make_quantity_point<U>(R{})"
     return (f'#include "au/au.hh"\n{inc}\n#include <cstdint>\n{unit.get("pre", "")}'
             f'using U = {unit["expr"]}; using R = {H.CTYPE[rep]}; using PT = au::QuantityPoint<U, R>;\n'
-            + ("#define C19_ARG (au::make_quantity_point<U>(R{}))\n" if control else "#define C19_ARG au::ZERO\n")
+            + (f"#define C19_ARG ({ctl})\n" if control else "#define C19_ARG au::ZERO\n")
             + body + "\n")
 
 
@@ -422,6 +447,8 @@ def model_probe_request(site, uid, rep):
         return f"c19 site {site} point {uid} {rep}"
     if kind.startswith("site:"):
         return f"c19 site {kind.split(':')[1]} point {uid} {rep}"
+    if kind.startswith("oracle:"):
+        return "c19 cert i8"        # placeholder request (keeps answers aligned); the model has no verdict for these sites
     _, op, side = kind.split(":")
     pt = f"pt:{uid}:{rep}:{z}"
     return f"c19 bin {op} {pt} zero" if side == "pz" else f"c19 bin {op} zero {pt}"
@@ -464,8 +491,16 @@ class Violations(list):
 def choose_units(rng, tier):
     lib = H.library_units()
     units = [{"kind": "library", "expr": "au::" + u, "pre": "", "name": u} for u, _ in lib]
-    units += H.gen_units(rng, lib, 12 if tier == "quick" else 60)
+    units += H.directed_units()
+    units += H.gen_units(rng, lib, 11 if tier == "quick" else 60)      # at least one of each of the 11 kinds
     return units
+
+
+LIGHT_LIBRARY = ("Unos", "Percent", "Seconds", "Celsius", "Meters", "Hertz")
+
+
+def is_directed(u):
+    return u.get("directed") or u.get("name") in LIGHT_LIBRARY
 
 
 def explore(tier, seed, rng, wd):
@@ -487,11 +522,14 @@ def explore(tier, seed, rng, wd):
     # (quick) / third (thorough); thorough adds the five other compiler x standard configurations
     others = [c for c in CONFIGS if c != ("g++", "c++14")]
     std2 = ["c++14", "c++17", "c++20"][seed % 3]
+    # stride 0 = "light": the directed units only, directed values only, no sanitizer — every other compiler x standard
+    # in every quick run (C++20 reversed candidates, g++ vs clang)
     if tier == "quick":
-        configs = [("g++", "c++14", 1, "-O0"), ("exact", std2, 6, "-O0")]
+        configs = [("g++", "c++14", 1, "-O0"), ("exact", std2, 6, "-O0")] + [c + (0, "-O0") for c in others]
     else:
         configs = [("g++", "c++14", 1, "-O1"), ("exact", std2, 3, "-O1")] + \
                   [c + (1 if c[0].startswith("clang") and c[1] == "c++17" else 3, "-O1") for c in others]
+    _cpu[0] = CPU_LIMIT[tier]
     stats = {"units": len(units), "unit_kinds": {}, "instances": len(insts), "configs": [], "sweeps": 0,
              "sweep_values": 0, "sweep_classes": {"neg": 0, "zero": 0, "pos": 0, "nan": 0}, "points": 0, "pairs": 0,
              "pairs_model_ub": 0, "point_classes": {"neg": 0, "zero": 0, "pos": 0, "nan": 0, "inf": 0, "subnormal": 0,
@@ -510,16 +548,28 @@ def explore(tier, seed, rng, wd):
         return dict({"kind": "value", "unit": u["expr"], "unit_pre": u.get("pre", ""), "unit_kind": u["kind"],
                      "rep": ins["rep"], "config": cfg}, **kw)
 
-    for ci, (compiler, std, stride, opt) in enumerate(configs):
-        cfg = f"{compiler} -std={std}"
-        tag = {"g++": "g", "exact": "x"}.get(compiler, "c") + std[-2:]
-        sub = insts if stride == 1 else [i for i in insts if (i["u"] + H.REPS.index(i["rep"]) + seed) % stride == 0]
+    # build every configuration concurrently, then run them one after the other
+    def prepare(c):
+        compiler, std, stride, opt = c
+        tag = {"g++": "g", "exact": "x"}.get(compiler, "c") + std[-2:] + ("l" if stride == 0 else "")
+        if stride == 1:
+            sub = insts
+        elif stride == 0:
+            sub = [i for i in insts if is_directed(units[i["u"]])]
+        else:       # the directed units always, plus a seed-chosen fraction of the rest
+            sub = [i for i in insts if is_directed(units[i["u"]]) or (i["u"] + H.REPS.index(i["rep"]) + seed) % stride == 0]
         cwd = os.path.join(wd, tag)
         os.makedirs(cwd, exist_ok=True)
         cfiles = files if stride == 1 else H.write_harness(cwd, units, sub, periods)
         tb = time.time()
-        exe, err = build_harness(cwd if stride != 1 else wd, cfiles, compiler, std, tag, opt)
-        stats["timing"]["compile_" + tag] = round(time.time() - tb, 1)
+        exe, err = build_harness(cwd if stride != 1 else wd, cfiles, compiler, std, tag, opt, san=(stride != 0))
+        return tag, sub, exe, err, round(time.time() - tb, 1)
+    built = pmap(prepare, configs, workers=len(configs))
+    for ci, ((compiler, std, stride, opt), (tag, sub, exe, err, tcomp)) in enumerate(zip(configs, built)):
+        cfg = f"{compiler} -std={std}"
+        light = stride == 0
+        exact = compiler == "exact"
+        stats["timing"]["compile_" + tag] = tcomp
         tb = time.time()
         if exe is None:
             violations.append({
@@ -529,7 +579,8 @@ def explore(tier, seed, rng, wd):
                 "broken": "correspondence: AuModel.Zero.convertZero / binop accept what the compiler rejects", "detail": err})
             continue
         stats["configs"].append(f"{cfg} {opt} ({len(sub)} instances)" +
-                                (" [clang++-14, exact-count UBSan handlers]" if compiler == "exact" else ""))
+                                (" [clang++-14, exact-count UBSan handlers]" if exact else "") +
+                                (" [light: directed units x directed values, no sanitizer]" if light else ""))
         # ---- D lines -------------------------------------------------------------------------
         dl, _ = run_block(exe, "D")
         for l in dl:
@@ -586,15 +637,17 @@ def explore(tier, seed, rng, wd):
                     for k in range(pieces):
                         lines.append(f"S {ins['id']} {lo + k * step} {lo + (k + 1) * step - 1 if k < pieces - 1 else hi} {cert}")
                         meta.append(("S", ins, None))
-            pts = int_points(rng, rep, npts) if rep in INT_INFO else float_points(rng, rep, npts)
+            np_ = 0 if light else npts
+            pts = int_points(rng, rep, np_) if rep in INT_INFO else float_points(rng, rep, np_)
             if rep in INT_INFO and INT_INFO[rep][0] <= 16:
-                pts = rng.sample(pts, min(len(pts), 6))
+                keep = [x for x in pts if x in (ilo(rep), -1, 0, 1, ihi(rep))]          # directed, every run
+                pts = keep + rng.sample(pts, min(len(pts), 3))
             for x in pts:
                 lines.append(f"P {ins['id']} {x}")
                 meta.append(("P", ins, x))
         # pairs: ask the model first (never execute an addition the model calls UB)
         preq, pmeta = [], []
-        for ins in sub:
+        for ins in ([] if light else sub):
             rep = ins["rep"]
             prs = int_pairs(rng, rep, npairs) if rep in INT_INFO else float_pairs(rng, rep, npairs)
             prs = rng.sample(prs, min(len(prs), 2 * npairs + 2))
@@ -613,7 +666,17 @@ def explore(tier, seed, rng, wd):
             lines.append(f"Q {ins['id']} {a} {b} {da} {ds}")
             meta.append(("Q", ins, (a, b, m, ma)))
         answers, errs = run_harness(exe, lines)
-        stats["sanitizer_reports"] += sum(e.count("runtime error") for e in errs)
+        nrep = sum(e.count("runtime error") for e in errs)
+        stats["sanitizer_reports"] += nrep
+        nasan = sum(e.count("AddressSanitizer") for e in errs)
+        if (nrep and not exact) or nasan:
+            # full UBSan runtimes report a location once per process and g++ never calls the hook: no per-input verdict
+            # from these builds; every request of this harness is modelled UB-free (signed Q additions are executed only
+            # when the model says they do not overflow; unsigned wrap is not reported by these builds)
+            first = next((l for e in errs for l in e.split("\n") if "runtime error" in l or "AddressSanitizer" in l), "")
+            violations.append({"what": f"sanitizer report in the {cfg} build while evaluating expressions with ZERO: {first[:200]}",
+                               "class": "sanitizer-" + tag, "no_input": True, "broken": "UB-freedom (input identified only by the exact build)",
+                               "rec": {"kind": "build", "config": cfg, "report": first[:400]}})
         with open(os.path.join(wd, f"stderr_{tag}.txt"), "w") as ef:
             ef.write("\n".join(errs))
         # model answers for the P lines
@@ -621,6 +684,16 @@ def explore(tier, seed, rng, wd):
         mans = iter(drv.ask(mreq))
         for (k, ins, x), a in zip(meta, answers):
             rep = ins["rep"]
+            if a.startswith("T "):
+                if k == "P":
+                    next(mans)
+                xs = x if k == "P" else (a.split("curx=")[1].split()[0] if "curx=" in a else "?")
+                if k == "S" and rep == "f32" and xs.lstrip("-").isdigit():
+                    xs = sweep_x(rep, xs)
+                violations.append({"what": f"trap while evaluating expressions with ZERO ({a.split()[1]}): unit {units[ins['u']]['expr']}, "
+                                           f"rep {rep}, input {xs if k != 'Q' else x[:2]}", "class": f"trap-{rep}",
+                                   "rec": vrec(ins, cfg, x=str(xs) if k != "Q" else "0", observable="trap", impl=a[:400])})
+                continue
             if k == "S":
                 r = kv(a)
                 stats["sweeps"] += 1
@@ -641,7 +714,7 @@ def explore(tier, seed, rng, wd):
                         ("value_mismatch", "first_vm", "q + ZERO, q - ZERO or ZERO + q is not the number q", "add"),
                         ("init_mismatch", "first_im", "a quantity initialised from ZERO does not read back as 0", "init"),
                         ("ub", "first_ub", "sanitizer report (UB / unsigned wrap) while evaluating expressions with ZERO", "ub")):
-                    if int(r[key]):
+                    if int(r[key]) and (key != "ub" or exact):
                         xs = r[first]
                         violations.append({"what": f"{what}: unit {units[ins['u']]['expr']}, rep {rep}, x={xs}",
                                            "class": f"oracle-{obs}-{rep}", "rec": vrec(ins, cfg, x=sweep_x(rep, xs), observable=obs,
@@ -650,7 +723,7 @@ def explore(tier, seed, rng, wd):
                 ma = next(mans)
                 stats["points"] += 1
                 stats["reps"][rep] += 1
-                check_point(ins, units, cfg, str(x), a, ma, violations, stats, vrec)
+                check_point(ins, units, cfg, str(x), a, ma, violations, stats, vrec, exact=exact)
                 distinct.add((ins["u"], rep))
                 if len(samples) < 10 and rep in ("f32", "i64", "f80", "u8") and stats["points"] % 97 == 1:
                     samples.append({"request": f"c19 eval {ins['u']} {rep} {model_val(rep, str(x))}", "model": ma, "harness": a})
@@ -690,7 +763,7 @@ def sweep_x(rep, xs):
     return xs if rep in INT_INFO else "%08x" % int(xs)
 
 
-def check_point(ins, units, cfg, x, a, ma, violations, stats, vrec):
+def check_point(ins, units, cfg, x, a, ma, violations, stats, vrec, exact=False):
     rep = ins["rep"]
     r = kv(a)
     m = kv(ma)
@@ -717,6 +790,8 @@ def check_point(ins, units, cfg, x, a, ma, violations, stats, vrec):
         diffs.append("qz")
     if r["zq"] != m["zq"]:
         diffs.append("zq")
+    if r["qt"] != m["qz"] or r["tq"] != m["zq"]:        # the value category / spelling of the Zero operand is immaterial
+        diffs.append("qt/tq")
     for key in ("add", "sub", "zadd"):
         if not model_tok_matches(m[key], ins["u"], srep, r[key]):
             diffs.append(key)
@@ -740,6 +815,11 @@ def check_point(ins, units, cfg, x, a, ma, violations, stats, vrec):
             bad.append((f"q {H.OPS[k]} ZERO", cmp_exact(op, s), r["qz"][k] == "1"))
         if (r["zq"][k] == "1") != cmp_exact(op, s, zero_left=True):
             bad.append((f"ZERO {H.OPS[k]} q", cmp_exact(op, s, zero_left=True), r["zq"][k] == "1"))
+    for k, op in enumerate(OPN):
+        if (r["qt"][k] == "1") != cmp_exact(op, s):
+            bad.append((f"q {H.OPS[k]} Zero{{}} / named Zero object", cmp_exact(op, s), r["qt"][k] == "1"))
+        if (r["tq"][k] == "1") != cmp_exact(op, s, zero_left=True):
+            bad.append((f"Zero{{}} / named Zero object {H.OPS[k]} q", cmp_exact(op, s, zero_left=True), r["tq"][k] == "1"))
     if r["qz"] != r["rqz"] or r["zq"] != r["rzq"]:
         bad.append(("(q op ZERO) == (q.in(u) op 0) for all six ops, both sides", r["rqz"] + "/" + r["rzq"], r["qz"] + "/" + r["zq"]))
     for key, what in (("add", "q + ZERO"), ("sub", "q - ZERO"), ("zadd", "ZERO + q")):
@@ -750,13 +830,19 @@ def check_point(ins, units, cfg, x, a, ma, violations, stats, vrec):
     for key, what in (("padd", "(p + ZERO) - origin"), ("zpadd", "(ZERO + p) - origin")):
         if not same_number(rep, r[key], rep, x) or r["ptype"] != "11":
             bad.append((f"{what} == x and has p's type", x, r[key]))
-    if r["in"] != x and not (ex is None and exact_of(rep, r["in"]) is None):
-        bad.append(("q.in(u) == stored value", x, r["in"]))
+    for key, what in (("in", "q.in(u)"), ("inm", "q.in(QuantityMaker<U>{})"), ("inr", "q.in<Rep>(u)"), ("ind", "q.data_in(u)")):
+        if r[key] != x and not (ex is None and exact_of(rep, r[key]) is None):
+            bad.append((f"{what} == stored value", x, r[key]))
+    for key, what in (("pe", "q += ZERO"), ("me", "q -= ZERO")):       # oracle only (quantity.hh:301-308 is not modelled)
+        if not same_number(rep, r[key], rep, x):
+            bad.append((f"({what}) leaves q unchanged", x, r[key]))
     for site, v in zip(INIT_SITES, inits):
         if not is_zero_number(rep, v):
             bad.append((f"Quantity initialised from ZERO ({site}).in(u) == 0", 0, v))
-    if r["ub"] != "0":
-        bad.append(("no sanitizer report", 0, r["ub"]))
+    if len(inits) != len(INIT_SITES):
+        bad.append(("number of initialisation forms", len(INIT_SITES), len(inits)))
+    if exact and r["ub"] != "0":          # per-input UB verdicts only from the exact-count build
+        bad.append(("no undefined operation / unsigned wrap (exact-count UBSan)", 0, r["ub"]))
     for what, want, got in bad:
         violations.append({"what": f"{what} fails: unit {units[ins['u']]['expr']}, rep {rep}, x={x}: expected {want}, got {got}",
                            "class": f"oracle-{what[:12]}-{rep}",
@@ -787,7 +873,7 @@ def check_pair(ins, units, cfg, x, a, violations, vrec):
             continue
         if not model_tok_matches(m[key], ins["u"], srep, r[key]):
             diffs.append(key)
-    if r["ub"] != "0" and rep in INT_INFO and INT_INFO[promote(rep)][1]:
+    if cfg.startswith("exact") and r["ub"] != "0" and rep in INT_INFO and INT_INFO[promote(rep)][1]:
         diffs.append("ub")
     if diffs:
         violations.append({"what": f"model of the same-type friends differs from the implementation on {','.join(diffs)} "
@@ -859,10 +945,17 @@ def run_probes(tier, seed, rng, wd, units, drv, violations, stats, samples):
     else:
         nper, compilers = 8, list(CONFIGS)
     cases = []
+    # directed every run: units with an origin, unitless, equivalent-typed; every rep
+    dnames = ["au::Celsius", "au::Fahrenheit", "au::Kelvins", "decltype(au::Celsius{} * au::mag<2>())", "au::UnitProductT<>",
+              "au::Unos", "au::Meters", "decltype(au::Inches{} * au::mag<12>())", "au::Milli<au::Seconds>"]
+    dunits = [i for n in dnames for i, u in enumerate(units) if u["expr"] == n]
     for si, site in enumerate(sites):
         for k in range(nper):
             ui = rng.randrange(len(units))
             rep = rng.choice(H.REPS)
+            if k == 0 and dunits:
+                ui = dunits[(si + seed) % len(dunits)]
+                rep = H.REPS[(si + seed) % len(H.REPS)]
             comp = compilers[(si + k) % len(compilers)]
             cases.append({"site": site, "u": ui, "rep": rep, "compiler": comp[0], "std": comp[1]})
     mans = drv.ask([model_probe_request(c["site"], c["u"], c["rep"]) for c in cases])
@@ -888,6 +981,21 @@ def run_probes(tier, seed, rng, wd, units, drv, violations, stats, samples):
         mt = ma.split()
         model_reject = mt[0] == "hard"
         why, errs = classify_rejection(out)
+        okind = PROBE_SITES[c["site"]][0]
+        if okind.startswith("oracle:"):
+            import re
+            rec["model"] = "(not modelled)"
+            if rcc != 0:
+                violations.append({"what": f"control probe does not compile: {c['site']}", "class": "probe-control", "no_input": True,
+                                   "broken": "probe scaffolding", "rec": dict(rec, out=outc[-1500:])})
+            elif rc == 0:
+                violations.append({"what": f"ZERO is accepted by a point maker ({c['site']}, unit {rec['unit']}, rep {c['rep']}, {cfg})",
+                                   "class": f"oracle-point-{c['site']}", "rec": dict(rec, observable="accepted", expected="rejected",
+                                                                                    actual="compiles")})
+            elif not re.search(ORACLE_ONLY[okind.split(":")[1]], out):
+                violations.append({"what": f"probe rejected for a reason outside the allow-list ({c['site']})", "class": "probe-allow",
+                                   "no_input": True, "broken": "probe allow-list", "rec": dict(rec, out=out[-1500:])})
+            continue
         if len(samples) < 18 and stats["neg_probes"] % 13 == 1:
             samples.append({"probe": f"{c['site']} {units[c['u']]['expr']} {c['rep']} [{cfg}]", "model": ma,
                             "compiler": (errs[0][:200] if errs else "accepted")})
@@ -986,7 +1094,10 @@ def replay(path):
             print("impl  :", ans[0])
             print("model :", ma)
             print("oracle: exact value", exact_of(rep, x))
-            check_point(ins, [unit], " ".join(cfg), x, ans[0], ma, viol, stats, vrec)
+            if ans[0].startswith("T "):
+                viol.append({"what": "trap: " + ans[0][:200]})
+            else:
+                check_point(ins, [unit], " ".join(cfg), x, ans[0], ma, viol, stats, vrec, exact=(compiler == "exact"))
             d = kv(dl[0])
             if (d["pc"], d["pv"], d["pa"], d["qc"], d["qv"], d["qa"], d["ce"], d["unit_same"]) != ("0", "0", "0", "1", "1", "1", "1", "1"):
                 viol.append({"what": "type-level facts fail: " + dl[0]})
